@@ -203,6 +203,10 @@ def work_jac(chunk, tier='quick'):
                         idx = (j,) if val.ndim == 1 else ((i, j) if val.ndim == 2 else (i, j, l))
                         if val.ndim == 0:
                             idx = ()
+                        if len(idx) != val.ndim or any(a >= b for a, b in zip(idx, val.shape)):
+                            # the result has not the documented shape (C03's subject); for C02: no entry of the record for this entry of the derivative
+                            bad = (idx, float('inf'), float('nan'), F * unit)
+                            break
                         err = abs(float(val[idx]) - float(exact))
                         bound = K1 * float(est2[idx]) + F * unit
                         if est2[idx] > 0:
